@@ -23,7 +23,7 @@ class Case:
 def gen_case(rnd, nmax):
     c = Case()
     c.n = n = rnd.choice([1, 2, 3, 4, 5, 8, 9, 16, 17]) if rnd.random() < 0.3 else rnd.randint(1, nmax)
-    c.bs = rnd.choice([1, 1, 2, 5, 48, 256]) if n <= 24 else rnd.choice([1, 2, 5])
+    c.bs = rnd.choice([1, 1, 2, 5, 48, 171, 200, 255, 256]) if n <= 24 else rnd.choice([1, 2, 5])
     c.vb = rnd.choice([8, 64, 256])
     c.cap = rnd.randint(0, min(n, c.vb))
     c.fail = None
@@ -283,7 +283,12 @@ def run_stream(chk, count, nmax, variant="matrix", with_model=True, gets_matter=
     rnd = random.Random(chk.seed)
     fvh = core.build_harness(variant)
     core.gen_consts(fvh)
-    cases = [gen_case(rnd, nmax) for _ in range(count)] + [gen_wide_case(rnd) for _ in range(max(16, count // 120))]
+    cases = [gen_case(rnd, nmax) for _ in range(count)]
+    wide = [gen_wide_case(rnd) for _ in range(max(16, count // 120))]
+    # the wide cases cost the model seconds each: spread them evenly so that the shards of a run stay balanced
+    step = max(1, len(cases) // len(wide))
+    for i, w in enumerate(wide):
+        cases.insert(min(len(cases), i * (step + 1)), w)
     corpus = load_corpus()
     cases = corpus + cases
     lines = [c.line() for c in cases]
